@@ -247,6 +247,11 @@ fn rand_hunk(r: &mut Rng, allow_empty_sides: bool) -> HunkSpec {
             }
         }
     }
+    // ... or on a line in the middle of a side (no diff tool writes that, the parser takes the marker after any line)
+    if lines.len() >= 3 && r.chance(1, 25) {
+        let k = r.below(lines.len() as u64 - 1) as usize;
+        if lines[k].1.len() > 1 && lines[k].1.last() == Some(&b'\n') { lines[k].1.pop(); }
+    }
     let start = r.below(50);
     let mut h = HunkSpec { old_start: start, new_start: start + r.below(3), lines };
     if h.old_count() > 0 && h.old_start == 0 { h.old_start = 1; }
